@@ -21,7 +21,7 @@ import (
 )
 
 func (w *c16Worker) concurrentDecoders(round int) {
-	const G = 8
+	const G = 16
 	durT := reflect.TypeOf(time.Duration(0))
 	var wg sync.WaitGroup
 	var mu sync.Mutex
